@@ -218,7 +218,7 @@ add("C02", "model_checking",
     "Hermiticity at every stored time (1e-10), positivity and agreement with expm of the reference "
     "generator within 2x the a-priori bound n*sup||T^k||*sup||E^k||*||T-E||, conservation of norm/"
     "purity/energy, state-vector vs density-matrix, RWA converted back vs lab frame.",
-    "||H||dt <= 0.5; dim <= 4; field-driven propagation not exercised; for Redfield generators "
+    "||H||dt <= 0.5; dim <= 4; field-driven propagation: array fields only (the LabSetup / EField-object routes are not in the alphabet; operator-form field routes are stubs in the package and counted); for Redfield generators "
     "only trace and Hermiticity are claimed by the statement. KNOWN FINDING (printed, exit 0): on "
     "time axes that do not start at zero the RWA frame is anchored at absolute time zero "
     "(rwa/*/nonzero-axis-start/frame-anchored-at-absolute-time-zero).",
@@ -317,7 +317,10 @@ EXTRA = {
            "with recalculate in {True, False}; operator-form apply() on a complete basis of states.",
     "C02": "state-vector routes; full form x dephasing x RWA product; construction inside units "
            "contexts; basis context of the call; conversion directions; one propagator reused after "
-           "set_rwa / after its pure dephasing is changed; complex Hermitian Hamiltonians.",
+           "set_rwa / after its pure dephasing is changed; complex Hermitian Hamiltonians; field-driven "
+           "propagation (array field + dipole operator: constant field against the exact GKSL "
+           "exponential, every field shape for trace/Hermiticity); Lindblad generators propagated "
+           "inside real and complex eigenbasis contexts.",
     "C03": "dipole strengths read first inside a context; container/dtype of inputs (list, tuple, int "
            "and float arrays, caller mutating its array afterwards); multi-level molecules and "
            "non-zero ground-state energies; rebuild/clean histories; lifetimes and parameter sets.",
@@ -339,7 +342,9 @@ EXTRA = {
     "C06": "five analytic bath types in the bath section; ground-state energy offsets; three requests "
            "at different temperatures on one object; requests inside units contexts; operator-form "
            "tensors converted inside/outside the context; the zero-frequency element is allowed the "
-           "computed l'Hospital discretisation error only.",
+           "computed l'Hospital discretisation error only; baths graded in one parameter only (equal "
+           "reorganisation energies or equal correlation times); transition frequencies beyond the "
+           "rate code's cut-off.",
     "C07": "shared initial state across forms; refinement (argument and setting) against absolute "
            "references; non-dyadic axes; expansion orders; conversion after the propagator exists; "
            "unsorted energies with a different bath per site; complex unitary basis and complex "
@@ -364,7 +369,7 @@ EXTRA = {
            "calculation (start states built / diagonalized); non-unit polarisation vectors.",
     "C13": "window= option; second use of the same object and argument-unchanged clauses; data set "
            "through apply_to_data / assignment; amplitudes 1, 1j, 1e-9; negative steps; axis copies; "
-           "axis mutation histories.",
+           "axis mutation histories; storage types of function and window (real/complex).",
     "C14": "re-issue of the stored state; complex Hermitian contexts; nested non-commuting contexts; "
            "aggregate ground-state energy offsets; object histories before the request; relaxation "
            "Hamiltonians that do not commute with the aggregate Hamiltonian; multi-scale level "
@@ -382,7 +387,9 @@ EXTRA = {
            "axis whose step differs from the bath axis.",
     "C17": "integer / tuple initial vectors; request histories on ONE propagator; corrections= option "
            "with the rate matrix compared before/after; non-dyadic and offset parent axes; slow and "
-           "multi-scale generators; long axes; results held across later requests.",
+           "multi-scale generators; long axes; results held across later requests; initial "
+           "populations whose sum is not one; assigned rates on scales differing by 1e8 and "
+           "corrections of 1e-7 of a value (stored numbers compared exactly).",
     "C18": "one-row / one-column / one-point shapes; complex Hermitian contexts; magnitudes 1e-10; "
            "savedir tag histories; saving leaves the object alone; import inside contexts; file-name "
            "reuse; exported axis in every unit for 12 axis kinds; series of 2-3 objects in one open "
